@@ -456,7 +456,7 @@ func genImportBlock(c *Ctx) {
 
 func famGen(c *Ctx) {
 	// import block cases (cheap): model correspondence
-	for i := 0; i < 40+c.N*4; i++ {
+	for i := 0; i < 500+c.N*20; i++ {
 		genImportBlock(c)
 	}
 
